@@ -4,11 +4,11 @@ set -u
 P=$1; WT=$2; shift 2
 CHECKS=${@:-$P}
 cd "$WT" || exit 2
-git diff -- . ':!seed_demo*' > /tmp/seed/$P.patch
-[ -s /tmp/seed/$P.patch ] || { echo "no diff in $WT"; exit 2; }
+git diff -- . ':!seed_demo*' > $(dirname $WT)/$P.patch
+[ -s $(dirname $WT)/$P.patch ] || { echo "no diff in $WT"; exit 2; }
 /verif/tools/confirm_seed.sh "$WT" "$WT/seed_demo.sh" 2>&1 | tail -15
 cd /verif
-git -C /repo apply /tmp/seed/$P.patch || { echo APPLY-FAILED; exit 2; }
+git -C /repo apply $(dirname $WT)/$P.patch || { echo APPLY-FAILED; exit 2; }
 for c in $CHECKS; do ./check $c quick 2>&1 | tail -6; done
 git -C /repo checkout -- .
 git -C /repo status --short | head
